@@ -21,7 +21,7 @@ func init() {
 			`R15.3 ordered fan-in: the channel consumed by writeMessages has exactly one (single-instance) sender, workers send only on their own channel, the collector hands the token back and the dispatcher takes it before handing out work; ` +
 			`R15.4 ambient values (time, CPU count, GOMAXPROCS, random, pid, memory statistics) reach only statistics fields and diagnostics, never comparisons, data or parameters. ` +
 			`R15.5 the buffer handed to io.ReadAtLeast in package wsync is exactly min long (s[lo:lo+min], s[:min], or min = len(buf)): how much a refill takes does not depend on the reader. ` +
-			`R15.6 no function of the module outside init/Register* assigns, updates, writes through or hands out as a buffer a package-level variable (generated .pb.go excluded). R15.7 no function of the module returns memory of an object behind a deferred sync.Pool.Put of it, or touches it after a plain Put (fixtures BadReturnsPooledMemory / BadUsesAfterPut / GoodCopiesBeforePut keep the rule alive: the tree has no pool). NOT decided: byte-identical output as such, races on slice elements (partitioned sub-slices), races inside dependencies, short reads of the source pool.`,
+			`R15.6 no function of the module outside init/Register* assigns, updates, writes through or hands out as a buffer a package-level variable (generated .pb.go excluded). R15.7 no function of the module returns memory of an object behind a deferred sync.Pool.Put of it, or touches it after a plain Put (fixtures BadReturnsPooledMemory / BadUsesAfterPut / GoodCopiesBeforePut keep the rule alive: the tree has no pool). R15.4 also: an ambient value must not become a channel capacity. NOT decided: byte-identical output as such, races on slice elements (partitioned sub-slices), races inside dependencies, short reads of the source pool.`,
 		Assumptions: []string{
 			"slice element accesses are not tracked (partitioned sub-slices such as I[st:en] cannot be proved disjoint statically)",
 			"state.Consumer callbacks and other external callbacks are assumed internally synchronised",
@@ -38,7 +38,7 @@ func init() {
 			`R19.3 every worker sends exactly one result on every path and the parent collects them; R19.4 the set of finished entries behind the marker is keyed by the entry index itself, not by a reduction of it; R19.5 no function of package archiver that changes the tree (removes, creates, renames) examines a path with os.Stat, which follows links - entries are examined with Lstat, so that re-extraction over an existing tree stays idempotent for links. ` +
 			`R19.6 functions of package archiver that walk a tree to archive it never refer to filepath.SkipDir / SkipAll; R16.8 (shared) workers are waited for only after they were released. ` +
 			`R19.7 no strings.HasPrefix/HasSuffix/Contains(x, "..") in package archiver (a test of characters where path elements are meant; legal names such as ..data would be refused). ` +
-			`R19.8 a removal in archiver.Mkdir is reached only through the nil outcome of an Lstat and the outcome !IsDir() (workers make directories concurrently). R19.9 the bound of the loop that starts the extraction workers is at least 1 on every path: a constant >= 1, max(.., 1), or a value that reaches the loop through a test that made it so. NOT decided: tree equality, tar, symlink/dir recreation, and whether the marker value is a contiguous high-water mark (value-level; a lock is necessary, not sufficient).`,
+			`R19.8 a removal in archiver.Mkdir is reached only through the nil outcome of an Lstat and the outcome !IsDir() (workers make directories concurrently). R19.9 the bound of the loop that starts the extraction workers is at least 1 on every path: a constant >= 1, max(.., 1), or a value that reaches the loop through a test that made it so. R19.10 the per-entry literal of ExtractZip (the one calling two of Mkdir / Symlink / CopyFile) returns success only after one of them was called, DryRun apart, and ExtractZip itself calls none of them. NOT decided: tree equality, tar, symlink/dir recreation, and whether the marker value is a contiguous high-water mark (value-level; a lock is necessary, not sufficient).`,
 		Assumptions: []string{
 			"state.Consumer and the OnEntryDone / OnUncompressedSizeKnown callbacks are assumed internally synchronised",
 			"slice element accesses are not tracked",
@@ -571,6 +571,10 @@ func ambientEscapes(src ssa.Value) []string {
 				default:
 					follow(x, d+1)
 				}
+			case *ssa.MakeChan:
+				if x.Size == v {
+					bad = append(bad, "the capacity of the channel "+core.Describe(x)+" (how many goroutines may go on at once)")
+				}
 			case *ssa.Store:
 				if x.Val != v {
 					continue // stored *into* v: fine
@@ -721,6 +725,7 @@ func runC19(c *core.Ctx) {
 		return
 	}
 	rulePoolHasAWorker(c, "R19.9", ez)
+	ruleEntryMadeBeforeDone(c, "R19.10", ez)
 	s := reportForkSite(c, "R19.1", ez, 1)
 	multi := false
 	var worker *forkUnit
